@@ -354,8 +354,8 @@ impl Monitor for C16 {
         N_DIRECTED
             + match t {
                 Tier::Tiny => 10,
-                Tier::Quick => 12_000,
-                Tier::Thorough => 150_000,
+                Tier::Quick => 900000,
+                Tier::Thorough => 9000000,
             }
     }
     fn rule(&self) -> &'static str {
